@@ -1,12 +1,13 @@
 SPECIFICATION Spec
-CONSTANT Tokens = {"A", "B"}
-CONSTANT Holders = {"h1", "h2", "h3", "Z", "M"}
-CONSTANT Callers = {"h1", "h2", "h3"}
-CONSTANT Zero = "Z"
+CONSTANT Tokens = {A, B}
+CONSTANT Holders = {h1, h2, h3, Z, M}
+CONSTANT Callers = {h1, h2, h3}
+CONSTANT Zero = Z
 CONSTANT SmallAmounts = {0, 1, 2}
 CONSTANT InitBal = 2
 CONSTANT MaxCalls = 4
 CONSTANT Shared = FALSE
+SYMMETRY Sym
 VIEW view
 INVARIANT TypeOK
 INVARIANT Conservation
